@@ -639,6 +639,30 @@ pub fn worker_c07(shard: usize, _nshards: usize, seed: u64, tier: &str, out: &mu
             }
         }
     }
+    // game records that end in a repetition pattern where the side to move has a single legal
+    // reply (the root's repetition filter and its single-reply shortcut meet there)
+    {
+        let want = if tier == "thorough" { 20 } else { 3 };
+        let mut found = 0;
+        let mut rrng = Rng::new(seed, 0x7777 + shard as u64);
+        for _ in 0..4000 {
+            if found >= want {
+                break;
+            }
+            let Some(root) = repetition_root(&corpus, &mut rrng) else { continue };
+            let Some(p) = root.shadow() else { continue };
+            if p.legal_moves().len() != 1 {
+                continue;
+            }
+            found += 1;
+            out.add("repetition_roots_with_a_single_reply", 1);
+            for d in 1..=3 {
+                out.begin(&json!({"kind":"stop-root","root":root.json(),"depth":d}));
+                c07_root(out, &root, d, cap, &mut rrng);
+                out.end();
+            }
+        }
+    }
     for i in 0..nsmall {
         let root = random_root(&corpus, &mut rng, if i % 2 == 0 { 32 } else { 10 });
         let d = 1 + (i % 3) as u8;
@@ -661,13 +685,14 @@ pub fn run_c07(tier: &str, seed: u64) -> (Check, Agg) {
     let agg = par::run_workers("C07", tier, seed, nshards, &[], Duration::from_secs(if tier == "thorough" { 10800 } else { 1200 }), None, &[]);
     chk.evaluations = agg.c("stopped_searches");
     chk.distinct_nontrivial = agg.c("stopped_searches");
-    chk.rule = "fault = the stop flag flipped by the node-entry hook at exactly poll N. For roots whose undisturbed search (depth 1-3) has at most the cap of polls EVERY N from 1 to the total is tried (counter roots_with_every_stop_point); deeper/larger searches use N = 1..50, a geometric ladder, 20 random points and the last two polls. Each (root, depth, N) triple is distinct by construction, and non-trivial because the stop lands inside the search (N <= total polls). Roots: random game positions (by moves and by text), small endings, and fixed special roots (mate in one, stalemate, checkmate, single reply, castling).".into();
+    chk.rule = "fault = the stop flag flipped by the node-entry hook at exactly poll N. For roots whose undisturbed search (depth 1-3) has at most the cap of polls EVERY N from 1 to the total is tried (counter roots_with_every_stop_point); deeper/larger searches use N = 1..50, a geometric ladder, 20 random points and the last two polls. Each (root, depth, N) triple is distinct by construction, and non-trivial because the stop lands inside the search (N <= total polls). Roots: random game positions (by moves and by text), small endings, fixed special roots (mate in one, stalemate, checkmate, single reply, castling) and game records ending in a repetition pattern with a single legal reply.".into();
     chk.assumptions = vec![
         "the stop flag is only read at the node-entry poll (verified by reading search.rs); the hook sits immediately before that read".into(),
         "legality is decided by the independent oracle".into(),
     ];
     chk.need("stopped searches", agg.c("stopped_searches"), 2000);
     chk.need("stops at the very first poll", agg.c("stops_at_first_poll"), 10);
+    chk.need("roots ending in a repetition pattern with a single legal reply", agg.c("repetition_roots_with_a_single_reply"), 8);
     chk.need("stops before the first iteration completed", agg.c("stops_before_first_iteration_completed"), 10);
     chk.need("roots with every stop point tried", agg.c("roots_with_every_stop_point"), 10);
     chk.need("follow-up searches on the table an interrupted search left behind", agg.c("follow_up_searches_after_a_stop"), 2000);
